@@ -67,6 +67,8 @@ func runC03(c *Ctx) {
 	c.Rule("O3.5", "counters bracket the shot: Request.Add(1) dominates every Shoot, Response.Add(1) post-dominates it, each at most once per token, never on the discard path")
 	c.Rule("O3.6", "shared vs per-instance schedule: with rps-per-instance the schedule factory itself is handed to instances; otherwise one schedule built once and returned by a closure; newInstance draws exactly one schedule")
 	c.Rule("O3.7", "the shared profile is not declared finished early: a composite profile answers ok=false only from its last part (the engine stops the pool on the first 'finished' answer, so an early one leaves the remaining tokens neither fired nor discarded); the same decision as O2.9, applied to C03's token count")
+	c.Rule("O3.9", "with rps-per-instance every started instance fires a profile of its own: the schedule factory handed to the instances is made by the plugin registry, so each of its products must be built from a config decoded for that product - a factory that decodes the by-value config once hands every instance the same nested schedule objects (rps written as a list: CompositeConf.Nested) and the pool fires one profile in total (the rule of O18.2, shared)")
+	c.Borrow("C18", runC18, map[string]string{"O18.2": "O3.9"})
 	if cn, sn := c.P.Func("core/schedule", "compositeSchedule", "Next"), c.P.Func("core/schedule", "compositeSchedule", "startNext"); cn != nil && sn != nil {
 		c02FinalOnlyFromLastPart(c, "O3.7", cn, sn)
 	} else {
